@@ -18,6 +18,8 @@
 (* or refutes on the real code:                                                              *)
 (*   RecheckWord  TRUE : join/drop loop `while word.load(Acquire) == 1 { futex_wait_fast }`  *)
 (*                FALSE: pinned tree: one futex_wait_fast (Relaxed load, one FUTEX_WAIT)     *)
+(*   RecheckDrop  the same for the wait in JoinHandle::drop (RecheckWord then speaks of join  *)
+(*                only): FALSE with RecheckWord TRUE = "drop waits once, join loops"          *)
 (*   CheckClone   TRUE : a failed clone releases everything and returns Err                  *)
 (*                FALSE: pinned tree: return value of __clone ignored, Ok(handle)            *)
 (*   MmapFirst    TRUE : stack mapped before anything is allocated                           *)
@@ -35,7 +37,7 @@ CONSTANTS NT,          \* number of threads
           Spurious,    \* budget of spurious futex returns
           FailMmap,    \* set of threads whose stack mmap fails
           FailClone,   \* set of threads whose clone fails
-          RecheckWord, CheckClone, MmapFirst, DropResult, KernelAtomic
+          RecheckWord, RecheckDrop, CheckClone, MmapFirst, DropResult, KernelAtomic
 
 Threads == 1..NT
 RS == {"none", "live", "freed"}
@@ -167,6 +169,8 @@ ReturnHandle ==  \* at 6 -> Ok(JoinHandle)
 (* waiting for the exit word (shared by join and drop)                      *)
 
 AfterWait == IF Op.op = "join" THEN "31" ELSE "43"
+\* does the wait of the current operation re-check the word after every wake-up?
+Recheck == IF Op.op = "join" THEN RecheckWord ELSE RecheckDrop
 
 HSkipOp ==       \* join/drop of a thread whose spawn returned Err: the program has no handle, nothing happens
     /\ hpc = "60" /\ Op.op \in {"join", "drop"} /\ handle[P] # "held"
@@ -190,16 +194,16 @@ LoadAcquire ==   \* 50a: `while word.load(Acquire) == UNFINISHED`
 LoadRelaxed ==   \* 50r: futex_wait_fast: `if futex.load(Relaxed) != expect { return }`
     /\ hpc = "50r"
     /\ bad' = bad \cup Touch("H", P)
-    /\ hpc' = IF word[P] # 1 THEN (IF RecheckWord THEN "50a" ELSE AfterWait) ELSE "51"
+    /\ hpc' = IF word[P] # 1 THEN (IF Recheck THEN "50a" ELSE AfterWait) ELSE "51"
     /\ UNCHANGED <<hop, tpc, tsm, tls, stk, clo, word, flag, slot, ctid, handle, sres, sp, ran, jres, hsync>>
 
 FutexWait ==     \* 51: FUTEX_WAIT(word, 1): atomically compare and park, or EAGAIN (-> return)
     /\ hpc = "51"
     /\ bad' = bad \cup Touch("H", P)
-    /\ hpc' = IF word[P] = 1 THEN "parked" ELSE (IF RecheckWord THEN "50a" ELSE AfterWait)
+    /\ hpc' = IF word[P] = 1 THEN "parked" ELSE (IF Recheck THEN "50a" ELSE AfterWait)
     /\ UNCHANGED <<hop, tpc, tsm, tls, stk, clo, word, flag, slot, ctid, handle, sres, sp, ran, jres, hsync>>
 
-Woken == IF RecheckWord THEN "50a" ELSE AfterWait
+Woken == IF Recheck THEN "50a" ELSE AfterWait
 
 SpuriousWake ==  \* environment: FUTEX_WAIT returns 0 although nobody changed the word (futex(2))
     /\ hpc = "parked" /\ sp > 0
@@ -244,7 +248,7 @@ DropFlagCas ==   \* 40: compare_exchange(false, true): won -> the thread frees; 
        THEN /\ flag' = [flag EXCEPT ![P] = TRUE]
             /\ handle' = [handle EXCEPT ![P] = "dropped"]
             /\ hpc' = NextOp /\ hop' = hop + 1
-       ELSE /\ hpc' = IF RecheckWord THEN "50a" ELSE "50r"
+       ELSE /\ hpc' = IF RecheckDrop THEN "50a" ELSE "50r"
             /\ UNCHANGED <<flag, handle, hop>>
     /\ UNCHANGED <<tpc, tsm, tls, stk, clo, word, slot, ctid, sres, sp, ran, jres, hsync>>
 
